@@ -220,6 +220,14 @@ class WebSocketReader:
                     WSCloseCode.PROTOCOL_ERROR,
                     "Continuation frame for non started message",
                 )
+            # A new data frame must not start inside a fragmented message
+            # https://datatracker.ietf.org/doc/html/rfc6455#section-5.4
+            if opcode != OP_CODE_CONTINUATION and self._opcode != OP_CODE_NOT_SET:
+                raise WebSocketError(
+                    WSCloseCode.PROTOCOL_ERROR,
+                    "The opcode in non-fin frame is expected "
+                    f"to be zero, got {opcode!r}",
+                )
 
             # load text/binary
             if not fin:
